@@ -260,6 +260,57 @@ func propC20(c *Ctx) {
 			}
 		})
 		if !anyElemStore {
+			// a second algorithm that is read: both lists concatenated, sorted by name, reduced to the FIRST of
+			// each run of equal names (slices.CompactFunc): the file entries have to come first in the
+			// concatenation and the sort has to be stable
+			var compact, sortCall *ssa.Call
+			for _, ci := range callsIn(fn) {
+				call, isCall := ci.(*ssa.Call)
+				if !isCall {
+					continue
+				}
+				switch n := calleeName(call); {
+				case strings.HasPrefix(n, "slices.CompactFunc") || strings.HasPrefix(n, "slices.Compact"):
+					compact = call
+				case strings.HasPrefix(n, "slices.SortStableFunc") || strings.HasPrefix(n, "slices.SortFunc") || strings.HasPrefix(n, "sort.Slice"):
+					sortCall = call
+				}
+			}
+			if compact != nil {
+				origin := func(v ssa.Value) string {
+					v = stripConv(v)
+					if sl, isSl := v.(*ssa.Slice); isSl {
+						v = stripConv(sl.X)
+					}
+					if call, k := resultOf(v); call != nil && k == 0 {
+						if f := staticCallee(call); f != nil && f.Name() == spec.dbCallee {
+							return "db"
+						}
+					}
+					if _, ch := fieldChain(v); len(ch) >= 1 && ch[len(ch)-1] == fConf {
+						return "file"
+					}
+					return ""
+				}
+				first, second := "", ""
+				for _, ci := range callsNamed(fn, "builtin append") {
+					call := ci.(*ssa.Call)
+					if len(call.Call.Args) != 2 {
+						continue
+					}
+					a, b := origin(call.Call.Args[0]), origin(call.Call.Args[1])
+					if a != "" && b != "" {
+						first, second = a, b
+					}
+				}
+				stable := sortCall != nil && strings.HasPrefix(calleeName(sortCall), "slices.SortStableFunc")
+				if first != "" {
+					good := first == "file" && second == "db" && stable
+					c.Check("R20.2", fnName(fn)+"/file-after-db", fn.Pos(), good,
+						fmt.Sprintf("concatenate–sort–compact keeps the first entry of each name: the concatenation starts with the %s entries (file wanted), stable sort: %v", first, stable))
+					continue
+				}
+			}
 			c.OK("R20.2", fnName(fn)+"/file-after-db", fn.Pos(), "no collection element is stored into a map in this function: the merge is not done by the algorithm this rule reads; not decided")
 			continue
 		}
@@ -806,6 +857,51 @@ func propC20(c *Ctx) {
 		}
 	}
 	c.Check("R20.4", "runTask/stop-before-converge", runTask.Pos(), okSel, detail)
+	// the step runs in the runner itself: when runTask returns (and the generation's wait group is
+	// released) no Converge of it is still in flight.  A step started with `go` outlives the runner.
+	{
+		var async []string
+		sync := 0
+		var visit func(f *ssa.Function, inGo bool, d int)
+		seen := map[*ssa.Function]bool{}
+		visit = func(f *ssa.Function, inGo bool, d int) {
+			if f == nil || f.Blocks == nil || d > 3 || (seen[f] && !inGo) {
+				return
+			}
+			seen[f] = true
+			allInstrs(f, func(in ssa.Instruction) {
+				switch x := in.(type) {
+				case *ssa.Go:
+					if staticCallee(x) == conv {
+						async = append(async, w.Pos(x.Pos()))
+						return
+					}
+					switch g := x.Call.Value.(type) {
+					case *ssa.MakeClosure:
+						visit(g.Fn.(*ssa.Function), true, d+1)
+					case *ssa.Function:
+						visit(g, true, d+1)
+					}
+				case *ssa.Call:
+					cal := staticCallee(x)
+					if cal == conv {
+						if inGo {
+							async = append(async, w.Pos(x.Pos()))
+						} else {
+							sync++
+						}
+						return
+					}
+					if cal != nil && isRepoFunc(cal) && cal.Pkg == runTask.Pkg && (cal.Parent() != nil || len(callsToFn(f, cal)) > 0) && d < 3 {
+						visit(cal, inGo, d+1)
+					}
+				}
+			})
+		}
+		visit(runTask, false, 0)
+		c.Check("R20.4", "runTask/step-runs-in-the-runner", runTask.Pos(), sync > 0 && len(async) == 0,
+			fmt.Sprintf("Converge is called by the runner itself (%d synchronous calls); started with `go` at: %v", sync, async))
+	}
 
 	// ---- R20.5 ----------------------------------------------------------
 	c.Rule("R20.5", "Manager.restart (the current stop channel) is accessed with Manager.restartMut held (same discipline as C18 R18.3)", 3)
